@@ -220,11 +220,15 @@ def load_known():
     return json.load(open(p)).get("known", [])
 
 
-def match_known(known, cls, detail):
+def match_known(known, cls, detail, scenario=None):
     for k in known:
         if k.get("class") and k["class"] != cls:
             continue
         if k.get("match") and not re.search(k["match"], detail or ""):
+            continue
+        # an entry may be tied to the scenario(s) whose workload reaches it (used where the detail of the
+        # violation class carries no call site, so that the same class elsewhere is still reported)
+        if k.get("scenario") and not (scenario and re.fullmatch(k["scenario"], scenario)):
             continue
         return k
     return None
@@ -510,7 +514,7 @@ def main(argv):
     # known findings first, so that they cannot crowd new signatures out of the six that get triaged
     unknown = []
     for sig, lst in sorted(viols.items(), key=lambda kv: kv[0]):
-        kf = match_known(known, lst[0][4], lst[0][5])
+        kf = match_known(known, lst[0][4], lst[0][5], lst[0][0]["scenario"])
         if kf is not None:
             for i, (k0, n0) in enumerate(known_hits):
                 if k0 is kf:
